@@ -198,17 +198,39 @@ fn one(ctx: &mut Ctx, stream: &str, n: u64, rng: &mut Rng, large: bool) {
         }
     }
     // Hermes function maps have no accessor of their own: besides the per-token scopes compared
-    // above, the serialised x_facebook_sources value must be the one the map was decoded from
+    // above, the serialised x_facebook_sources value must describe the function maps the map was
+    // decoded from. "The same function map" is the same list of names and the same decoded
+    // (line, column, name) entries - how the mapping string spells them (group separators, omitted
+    // zero fields) is left to the writer; a string the Metro reference cannot read must be kept as is.
     if let SecMap::Hermes(h) = &model {
-        let want: serde_json::Value = serde_json::from_str(&h.fb_json_text()).expect("model JSON");
-        let got = serde_json::from_slice::<serde_json::Value>(&b1).ok().and_then(|v| v.get("x_facebook_sources").cloned());
+        fn normalise(v: &serde_json::Value) -> serde_json::Value {
+            let mut v = v.clone();
+            if let Some(list) = v.as_array_mut() {
+                for meta in list.iter_mut() {
+                    if let Some(fm) = meta.get_mut(0).and_then(|m| m.as_object_mut()) {
+                        let decoded = fm.get("mappings").and_then(|m| m.as_str()).and_then(crate::reference::metro::decode);
+                        if let Some(entries) = decoded {
+                            fm.insert("mappings".into(), json!(entries.iter().map(|e| format!("{e:?}")).collect::<Vec<_>>()));
+                        }
+                    }
+                }
+            }
+            v
+        }
+        let want_raw: serde_json::Value = serde_json::from_str(&h.fb_json_text()).expect("model JSON");
+        let got_raw = serde_json::from_slice::<serde_json::Value>(&b1).ok().and_then(|v| v.get("x_facebook_sources").cloned());
+        let want = normalise(&want_raw);
+        let got = got_raw.as_ref().map(normalise);
         ctx.bucket("hermes-function-map-json-compared");
+        if got_raw.as_ref() != Some(&want_raw) {
+            ctx.bucket("hermes-function-map-json-respelled");
+        }
         if got.as_ref() != Some(&want) {
             ctx.violation(
                 "roundtrip-differs:hermes-function-maps",
                 stream,
                 n,
-                format!("x_facebook_sources after write: {}, the map was decoded from {}", got.map_or("<absent>".to_string(), |g| g.to_string()), want),
+                format!("x_facebook_sources after write: {}, the map was decoded from {} (compared after decoding the function-map strings)", got_raw.map_or("<absent>".to_string(), |g| g.to_string()), want_raw),
                 mj(),
             );
             return;
